@@ -183,3 +183,16 @@ func init() {
 		return x.freshTime(fmt.Sprintf("now%d", seq))
 	}
 }
+
+func init() {
+	// Duration.Hours() = float64(d/Hour) + float64(d%Hour)/3.6e12 (its source): kept as the pair (d div Hour, d mod Hour)
+	extSchemas["(time.Duration).Hours"] = func(x *Exec, st *State, fn *ssa.Function, args []Val, c *ssa.CallCommon) Val {
+		o := x.o
+		if o.M.BV {
+			x.fail("time.Duration.Hours schema needs `mode int`")
+		}
+		d := args[0].(*Term)
+		h := o.IntBig(big.NewInt(3600000000000))
+		return FloatQ{Q: o.Div(d, h), R: o.Mod(d, h), Div: 1}
+	}
+}
